@@ -335,6 +335,30 @@ Proof.
 Qed.
 Print Assumptions C16_reverse_reverses_of_source.
 
+(* ------------------------------------------------------------------ re-entrancy (outside the property's quantifier)
+   handlers that call observe / unobserve on the (name, type) being notified.  Stated precisely, for the model
+   notify_re that the correspondence runs against the implementation (the oracle demands nothing here):
+   the list left in the registry after one notification is exactly the handlers called in that round, in call order *)
+Theorem C16_reentrant_registry_is_called : forall sc reg calls reg',
+  round_re sc reg = Some (calls, reg') -> reg' = calls.
+Proof. exact round_re_registry. Qed.
+Print Assumptions C16_reentrant_registry_is_called.
+
+(* so C16_unobserve_silences does NOT extend to an unobserve() made by a handler during the notification: the full
+   statement "after unobserve(n, t, h) - wherever it is called from - h receives nothing more" is refuted: handler 1
+   unobserves handler 2 while ("x","change") is being delivered; 2 is still called in that round, is still in the
+   registry afterwards and is called again in the next round *)
+Theorem C16_unobserve_silences_reentrant_refuted :
+  exists sc reg, script_get sc 1 = HUnobserve 2 /\
+    run_rounds sc 2 reg = [[1; 2; -7; 1; 2]; [1; 2; -7; 1; 2]].
+Proof. exists [(1, HUnobserve 2)], [1; 2]. vm_compute. split; reflexivity. Qed.
+Print Assumptions C16_unobserve_silences_reentrant_refuted.
+
+(* a handler subscribed by another handler during the round is reached by the same loop (called in that round) *)
+Example C16_example_reentrant_observe :
+  run_rounds [(1, HObserve 3)] 2 [1; 2] = [[1; 2; 3; -7; 1; 2; 3]; [1; 2; 3; 3; -7; 1; 2; 3; 3]].
+Proof. vm_compute. reflexivity. Qed.
+
 (* ------------------------------------------------------------------ non-vacuity *)
 Definition ex_case : case :=
   {| c_mro := [[(0, EObs (Some 3))]; [(1, EList)]]; c_vals := [[SObs None None; SList (Some [1; 2; 3])]];
